@@ -122,8 +122,9 @@ def is_decomposable(root: Node, nodes: Optional[List[Node]] = None) -> Optional[
     for node in product_nodes:
         if len(node.children) == 0:
             return f"Product node #{node.id} has no children"
-        s_scope = set(sum([c.scope for c in node.children], []))
-        if set(node.scope) != s_scope:
+        c_scope = sum([list(c.scope) for c in node.children], [])
+        s_scope = set(c_scope)
+        if len(c_scope) != len(s_scope) or set(node.scope) != s_scope:
             return f"Children of Product node #{node.id} don't have disjointed scopes"
     return None
 
